@@ -38,8 +38,12 @@ func (e *Enc) Run() (err error) {
 	e.curGuard = TTrue
 	e.blockGuard = TTrue
 	// parameters and free variables
-	for _, p := range fn.Params {
-		c := e.sc.Declare("p_"+sanitize(p.Name()), e.tr.sortOf(p.Type()))
+	for pi, p := range fn.Params {
+		pname := "p_" + sanitize(p.Name())
+		if p.Name() == "_" {
+			pname = fmt.Sprintf("p_blank%d", pi)
+		}
+		c := e.sc.Declare(pname, e.tr.sortOf(p.Type()))
 		e.vals[p] = c
 		e.sc.Assert(e.tr.rangeAssumption(c, p.Type(), 0))
 		e.assumeAllocated(c, p.Type(), alloc0)
@@ -55,6 +59,24 @@ func (e *Enc) Run() (err error) {
 		e.vals[fv] = c
 		e.sc.Assert(e.tr.rangeAssumption(c, fv.Type(), 0))
 		e.assumeAllocated(c, fv.Type(), alloc0)
+	}
+	// write-once captured variables: one constant stands for every load
+	for _, fv := range fn.FreeVars {
+		if freeVarIsConst(fv, 0) {
+			t := derefType(fv.Type())
+			c := e.sc.Declare("fvconst_"+sanitize(fv.Name()), e.tr.sortOf(t))
+			e.sc.Assert(e.tr.rangeAssumption(c, t, 0))
+			e.assumeAllocated(c, t, alloc0)
+			e.sc.Assert(Eq(e.loadPtr(e.entry, e.vals[fv], t), c))
+			if e.fvConst == nil {
+				e.fvConst = map[string]Term{}
+			}
+			e.fvConst[e.vals[fv].S] = c
+			if _, isChan := t.Underlying().(*types.Chan); isChan && capturedPrivateChan(fv) {
+				e.privateChans = append(e.privateChans, c)
+			}
+			e.assumed["captured variables that are written once before the closure is created and only read afterwards have a fixed value (site scan of every function capturing them)"] = true
+		}
 	}
 	// captured variables are distinct, allocated cells
 	for i, a := range fn.FreeVars {
@@ -743,6 +765,9 @@ func (e *Enc) execInstr(ins ssa.Instruction) error {
 	case *ssa.Store:
 		lv := e.lvalOf(x.Addr)
 		e.checkNilLV(lv, x.Addr, x.Pos())
+		if sv := e.val(x.Val); sv.Sort == SReal {
+			e.finiteUse(x, "stored", sv)
+		}
 		e.store(lv, e.val(x.Val))
 		return nil
 	case *ssa.FieldAddr, *ssa.IndexAddr:
@@ -878,6 +903,9 @@ func (e *Enc) execInstr(ins ssa.Instruction) error {
 		e.define(x, ref)
 		cl := e.lookup(e.cur, "G$closedchans", ArraySort(SInt, SBool))
 		e.set(e.cur, "G$closedchans", Store(cl, e.vals[x], TFalse))
+		if e.localClosesOnly(x) {
+			e.privateChans = append(e.privateChans, e.vals[x])
+		}
 		return nil
 	case *ssa.Send:
 		e.abstracted["channel send"] = true
@@ -944,6 +972,12 @@ func (e *Enc) checkStringIndex(s, i Term, pos token.Pos) {
 func (e *Enc) execUnOp(x *ssa.UnOp) error {
 	switch x.Op {
 	case token.MUL:
+		if fv, ok := x.X.(*ssa.FreeVar); ok {
+			if c, isConst := e.fvConst[e.vals[fv].S]; isConst {
+				e.define(x, c)
+				return nil
+			}
+		}
 		lv := e.lvalOf(x.X)
 		e.checkNilLV(lv, x.X, x.Pos())
 		v := e.purify(e.load(lv))
@@ -1022,8 +1056,14 @@ func (e *Enc) binop(op token.Token, a, b Term, opType types.Type, at ssa.Instruc
 	}
 	switch op {
 	case token.EQL:
+		if a.Sort == SReal {
+			e.finiteUse(at, "compared", a, b)
+		}
 		return Eq(a, b)
 	case token.NEQ:
+		if a.Sort == SReal {
+			e.finiteUse(at, "compared", a, b)
+		}
 		return Not(Eq(a, b))
 	}
 	if a.Sort == SBool {
@@ -1074,16 +1114,17 @@ func (e *Enc) binop(op token.Token, a, b Term, opType types.Type, at ssa.Instruc
 		case token.MUL:
 			return e.rnd(App(SReal, "*", a, b))
 		case token.QUO:
-			e.oblige("FP.finite", "", nil, Not(Eq(b, T("0.0", SReal))), "float division: divisor must be non-zero (no Inf/NaN in the rounded-real model)", at.Pos())
-			return e.rnd(App(SReal, "/", a, b))
-		case token.LSS:
-			return App(SBool, "<", a, b)
-		case token.LEQ:
-			return App(SBool, "<=", a, b)
-		case token.GTR:
-			return App(SBool, ">", a, b)
-		case token.GEQ:
-			return App(SBool, ">=", a, b)
+			// a zero divisor gives Inf/NaN, which is not a panic: the quotient is then an arbitrary value that is
+			// tainted; FP.finite obligations arise only where a tainted value is compared, converted, stored or passed on
+			q := e.rnd(App(SReal, "/", a, b))
+			if !isNonZeroRealLit(b) {
+				e.addTaint(q, And(e.curGuard, Eq(b, T("0.0", SReal))))
+			}
+			return q
+		case token.LSS, token.LEQ, token.GTR, token.GEQ:
+			e.finiteUse(at, "compared", a, b)
+			o := map[token.Token]string{token.LSS: "<", token.LEQ: "<=", token.GTR: ">", token.GEQ: ">="}[op]
+			return App(SBool, o, a, b)
 		}
 	}
 	switch op {
@@ -1194,6 +1235,7 @@ func (e *Enc) convert(v Term, from, to types.Type, at ssa.Instruction) Term {
 			e.sc.Assert(Implies(e.curGuard, e.tr.rangeAssumption(r, to, 0)))
 			return r
 		}
+		e.finiteUse(at, "converted to an integer", v)
 		e.assumed["float64 to integer conversions stay within the integer range"] = true
 		if w, ok := intWitness(v); ok {
 			return w
@@ -1564,4 +1606,66 @@ func intWitness(t Term) (Term, bool) {
 func isSmallLit(t Term) bool {
 	s := strings.TrimSuffix(strings.TrimPrefix(t.S, "(- "), ")")
 	return isDigits(s) && len(s) <= 4
+}
+
+
+// ---------------------------------------------------------------------------
+// Non-finite taint: a float quotient whose divisor may be zero is an arbitrary value in the model.
+// It may be returned, but wherever it is compared, converted to an integer, stored or passed to a
+// call, an FP.finite obligation demands that the divisor was in fact non-zero.
+
+func isNonZeroRealLit(t Term) bool {
+	s := strings.TrimSpace(t.S)
+	if s == "" || s[0] == '(' && !strings.HasPrefix(s, "(- ") && !strings.HasPrefix(s, "(/ ") {
+		return false
+	}
+	for _, c := range s {
+		if !(c >= '0' && c <= '9' || c == '.' || c == '(' || c == ')' || c == '-' || c == '/' || c == ' ') {
+			return false
+		}
+	}
+	return strings.Trim(s, "0.()-/ ") != ""
+}
+
+func (e *Enc) addTaint(v Term, cond Term) {
+	if e.nfTaint == nil {
+		e.nfTaint = map[string]Term{}
+	}
+	if old, ok := e.nfTaint[v.S]; ok {
+		cond = Or(old, cond)
+	}
+	e.nfTaint[v.S] = cond
+}
+
+func (e *Enc) taintOf(ts ...Term) (Term, bool) {
+	if len(e.nfTaint) == 0 {
+		return TFalse, false
+	}
+	var conds []Term
+	seen := map[string]bool{}
+	for _, t := range ts {
+		if t.Sort != SReal {
+			continue
+		}
+		for _, m := range symRe.FindAllString(t.S, -1) {
+			if c, ok := e.nfTaint[m]; ok && !seen[m] {
+				seen[m] = true
+				conds = append(conds, c)
+			}
+		}
+	}
+	if len(conds) == 0 {
+		return TFalse, false
+	}
+	return Or(conds...), true
+}
+
+func (e *Enc) finiteUse(at ssa.Instruction, how string, ts ...Term) {
+	if c, ok := e.taintOf(ts...); ok {
+		pos := token.NoPos
+		if at != nil {
+			pos = at.Pos()
+		}
+		e.oblige("FP.finite", "", nil, Not(c), "a float that is "+how+" here must be finite: the divisor of the division it comes from must be non-zero", pos)
+	}
 }
